@@ -22,10 +22,13 @@ pub struct Case {
     pub build_ticks: u64,
     pub budget: u64,
     pub real_time_ms: Option<u64>,
+    /// the same planner and problem object were first used in an obstacle-free environment
+    /// (setup + solve) before the environment under test was installed by a second setup
+    pub warm_start: bool,
 }
 impl Case {
     pub fn to_json(&self) -> Value {
-        json!({"kind":"c06","problem":self.problem.to_json(),"params":self.params.to_json(),"t_ticks":self.t_ticks,"build_ticks":self.build_ticks,"budget":self.budget,"real_time_ms":self.real_time_ms})
+        json!({"kind":"c06","problem":self.problem.to_json(),"params":self.params.to_json(),"t_ticks":self.t_ticks,"build_ticks":self.build_ticks,"budget":self.budget,"real_time_ms":self.real_time_ms,"warm_start":self.warm_start})
     }
     pub fn from_json(v: &Value) -> Case {
         Case {
@@ -35,6 +38,7 @@ impl Case {
             build_ticks: v["build_ticks"].as_u64().unwrap_or(10),
             budget: v["budget"].as_u64().unwrap_or(4_000_000),
             real_time_ms: v["real_time_ms"].as_u64(),
+            warm_start: v["warm_start"].as_bool().unwrap_or(false),
         }
     }
 }
@@ -81,7 +85,8 @@ pub fn make_case(r: &mut Sm, idx: usize) -> Case {
         0 => r.below(4) as u64,
         _ => r.log_range(2.0, 600.0) as u64,
     };
-    Case { problem, params, t_ticks, build_ticks, budget: 1_000_000, real_time_ms: None }
+    let warm_start = r.bool(0.25);
+    Case { problem, params, t_ticks, build_ticks, budget: 1_000_000, real_time_ms: None, warm_start }
 }
 
 fn run_case<K: Kit>(ctx: &Ctx, b: &mut Batch, kit: &K, case: &Case) {
@@ -104,7 +109,25 @@ fn run_case<K: Kit>(ctx: &Ctx, b: &mut Batch, kit: &K, case: &Case) {
         l.tick_sample = TICK;
         l.tick_valid = TICK;
     }
-    let Ok(inst) = d.install(&case.problem, SampleMode::PlannerRng) else { return };
+    let Ok(mut inst) = d.install(&case.problem, SampleMode::PlannerRng) else { return };
+    if case.warm_start && lvs > 0.0 {
+        // first life: the same problem object in an empty environment
+        let mut free = case.problem.clone();
+        free.world = crate::world::World::default();
+        if let Ok(inst0) = d.reinstall(&inst, &free) {
+            if d.setup(inst0) == Res::Done {
+                if case.params.kind == PKind::Prm {
+                    let _ = d.construct_roadmap(true);
+                }
+                let _ = d.solve_ns(400 * TICK, true);
+                b.count("warm_started_cases", 1);
+            }
+        }
+        // second life: the environment under test (same Arc, new checker)
+        if let Ok(i2) = d.reinstall(&inst, &case.problem) {
+            inst = i2;
+        }
+    }
     let r0 = d.setup(inst);
     if r0 != Res::Done {
         if r0 == Res::Budget {
@@ -248,7 +271,7 @@ pub fn run(tier: Tier, seed: u64) -> i32 {
     for p in ALL_PLANNERS {
         ctx.require(&format!("solves[{}]", p.name()));
     }
-    for k in ["infeasible_worlds", "result[timeout]", "result[path]", "solves_with_zero_timeout", "prm_builds", "iterations_observed"] {
+    for k in ["warm_started_cases", "infeasible_worlds", "result[timeout]", "result[path]", "solves_with_zero_timeout", "prm_builds", "iterations_observed"] {
         ctx.require(k);
     }
     ctx.finish(
